@@ -8,11 +8,14 @@ if "--root" in extra:
     i = extra.index("--root"); root = extra[i + 1]; del extra[i:i + 2]
 if "--offset" in extra:
     i = extra.index("--offset"); off = int(extra[i + 1]); del extra[i:i + 2]
+dest = "seeded"
+if "--dest" in extra:
+    i = extra.index("--dest"); dest = extra[i + 1]; del extra[i:i + 2]
 src = f"{root}/{cid}/_out"
 V = os.path.dirname(os.path.dirname(os.path.abspath(__file__)))
 for pf in sorted(glob.glob(src + "/patch*.diff")):
     k = re.search(r"patch(\d+)\.diff", pf).group(1)
-    d = f"{V}/seeded/{cid}-{int(k) + off}"
+    d = f"{V}/{dest}/{cid}-{int(k) + off}"
     os.makedirs(d, exist_ok=True)
     shutil.copy(pf, d + "/patch.diff")
     for f in glob.glob(f"{src}/demo{k}*"):
